@@ -23,6 +23,12 @@ type Acceptor struct {
 	waiting bool
 	counted bool
 	Accepts int // Accept calls that returned a transport
+	// Accepted lists the transports Accept has returned (each of them must be closed by somebody in the end).
+	Accepted []transport.Transport
+	// slow: transports whose Accept is "in flight": Accept has taken the connection (for tcp: the socket is accepted, its
+	// options are being applied) but returns it only after ReleaseAccept - even if the acceptor was closed meanwhile.
+	slow     map[transport.Transport]bool
+	inFlight []chan struct{}
 }
 
 func (a *Acceptor) Accept() (transport.Transport, error) {
@@ -40,10 +46,57 @@ func (a *Acceptor) Accept() (transport.Transport, error) {
 	if len(a.queue) > 0 && !a.closed {
 		t := a.queue[0]
 		a.queue = a.queue[1:]
+		if a.slow[t] {
+			delete(a.slow, t)
+			gate := make(chan struct{})
+			a.inFlight = append(a.inFlight, gate)
+			if a.F.Tracker != nil {
+				a.F.Tracker.End()
+			}
+			a.mu.Unlock()
+			<-gate // the releaser has called Tracker.Begin for us
+			a.mu.Lock()
+		}
 		a.Accepts++
+		a.Accepted = append(a.Accepted, t)
 		return t, nil
 	}
 	return nil, ErrAcceptorClosed
+}
+
+// HandSlow is Hand for a connection whose Accept stays in flight until ReleaseAccept.
+func (a *Acceptor) HandSlow(t transport.Transport) bool {
+	a.mu.Lock()
+	if a.slow == nil {
+		a.slow = map[transport.Transport]bool{}
+	}
+	a.slow[t] = true
+	a.mu.Unlock()
+	return a.Hand(t)
+}
+
+// ReleaseAccept lets the oldest in-flight Accept return its connection; false if there is none.
+func (a *Acceptor) ReleaseAccept() bool {
+	a.mu.Lock()
+	if len(a.inFlight) == 0 {
+		a.mu.Unlock()
+		return false
+	}
+	g := a.inFlight[0]
+	a.inFlight = a.inFlight[1:]
+	a.mu.Unlock()
+	if a.F.Tracker != nil {
+		a.F.Tracker.Begin()
+	}
+	close(g)
+	return true
+}
+
+// AcceptedCopy returns the transports Accept has handed out so far.
+func (a *Acceptor) AcceptedCopy() []transport.Transport {
+	a.mu.Lock()
+	defer a.mu.Unlock()
+	return append([]transport.Transport(nil), a.Accepted...)
 }
 
 func (a *Acceptor) wakeLocked() {
